@@ -11,6 +11,8 @@ import (
 
 	"sort"
 
+	"google.golang.org/protobuf/proto"
+
 	"github.com/advancedclimatesystems/gonnx/onnx"
 	"github.com/advancedclimatesystems/gonnx/ops"
 	"github.com/advancedclimatesystems/gonnx/ops/opset13"
@@ -396,7 +398,73 @@ func reuseProbe(name string, node *onnx.NodeProto, inputs []*TJ, fresh *Result) 
 			bad = append(bad, fmt.Sprintf("%s: then %s %s", k, got.Status, got.Msg))
 		}
 	}
+	// an Init that was REFUSED leaves nothing behind: the same instance, initialised again with this case's node,
+	// answers like a fresh one (defaults included). The nodes that are refused: an unknown attribute in front of
+	// the real ones, every attribute twice, select_last_index=1 in front, no attributes at all.
+	for _, bn := range refusedNodes(node) {
+		op, err := opset13.GetOperator(name)
+		if err != nil {
+			break
+		}
+		var ierr error
+		panicked := false
+		func() {
+			defer func() {
+				if p := recover(); p != nil {
+					panicked = true
+				}
+			}()
+			ierr = op.Init(bn.node)
+		}()
+		if ierr == nil || panicked {
+			continue
+		}
+		got := func() (r *Result) {
+			defer func() {
+				if p := recover(); p != nil {
+					r = &Result{Status: "panic", Msg: fmt.Sprint(p)}
+				}
+			}()
+			if err := op.Init(node); err != nil {
+				return &Result{Status: "error", Msg: "Init: " + err.Error()}
+			}
+			return apply(op, inputs)
+		}()
+		g, _ := json.Marshal(got.Outs)
+		if got.Status != "ok" || string(g) != string(want) {
+			bad = append(bad, fmt.Sprintf("refused-init(%s): then %s %s", bn.how, got.Status, got.Msg))
+		}
+	}
 	return bad
+}
+
+type refusedNode struct {
+	how  string
+	node *onnx.NodeProto
+}
+
+func refusedNodes(node *onnx.NodeProto) []refusedNode {
+	cp := func() *onnx.NodeProto { return proto.Clone(node).(*onnx.NodeProto) }
+	var out []refusedNode
+	a := cp()
+	a.Attribute = append([]*onnx.AttributeProto{{Name: "no_such_attribute", Type: onnx.AttributeProto_INT, I: 1}}, a.Attribute...)
+	out = append(out, refusedNode{"unknown-attribute", a})
+	b := cp()
+	b.Attribute = append(b.Attribute, cp().Attribute...)
+	b.Attribute = append(b.Attribute, cp().Attribute...)
+	if len(node.Attribute) == 0 {
+		b.Attribute = []*onnx.AttributeProto{{Name: "x1", Type: onnx.AttributeProto_INT}, {Name: "x2", Type: onnx.AttributeProto_INT}, {Name: "x3", Type: onnx.AttributeProto_INT}, {Name: "x4", Type: onnx.AttributeProto_INT}}
+	}
+	out = append(out, refusedNode{"too-many-attributes", b})
+	c := cp()
+	c.Attribute = append([]*onnx.AttributeProto{{Name: "select_last_index", Type: onnx.AttributeProto_INT, I: 1}}, c.Attribute...)
+	out = append(out, refusedNode{"select-last-index", c})
+	if len(node.Attribute) > 0 {
+		d := cp()
+		d.Attribute = nil
+		out = append(out, refusedNode{"no-attributes", d})
+	}
+	return out
 }
 
 // priorDecodingOfEditedNode: a caller may keep a NodeProto around, edit its attributes in place and
